@@ -30,6 +30,7 @@ partial def loop {σ : Type} (h : IO.FS.Stream) (out : IO.FS.Stream) (step : σ 
   else
     let (s', o) := step s ws
     out.putStr o
+    out.flush
     loop h out step s'
 
 end Drivers
